@@ -125,7 +125,8 @@ def parseInstr (l : String) : Option Instr :=
   | _ => none
 
 def parseAsm (t : String) : Except String (List Instr) :=
-  let ls := if t = "" then [] else t.splitOn ";"
+  -- blank lines have no address (the assembler skips them)
+  let ls := (if t = "" then [] else t.splitOn ";").filter (fun l => (fields l) ≠ [])
   ls.foldr (fun l acc =>
     match acc, parseInstr l with
     | .error e, _ => .error e
